@@ -602,10 +602,10 @@ def c10_defects(q):
     dM = np.array(dM)                                            # [a, b, phi]
     # T[phi, i, j, k]: i, j derivative indices, k component; contraction with the tangent on a derivative index
     Tt = T[:, 2, :, :]                                           # [phi, j, k]
-    # grad_B "ab" = (a . grad) B . b?  decide the index convention by agreement: try both
+    # index convention of the code: grad_B "ab" = (a . grad) B . b, i.e. first letter = derivative direction (fixed: with a
+    # current on the axis grad B is not symmetric, and the transposed reading is off by O(I2))
     d1 = np.max(np.abs(Tt.transpose(1, 2, 0) - dM)) / sc
-    d2 = np.max(np.abs(Tt.transpose(2, 1, 0) - dM)) / sc
-    out['tangent contraction = d(grad B)/dl'] = float(min(d1, d2))
+    out['tangent contraction = d(grad B)/dl'] = float(d1)
     return out
 
 
@@ -734,6 +734,11 @@ def compare_profiles(q1, q2, mapping, tol, st, clause, cid, skip=(), floor_attr=
             with np.errstate(all='ignore'):
                 okpts = (np.abs(e - g) <= 1e-5 * np.abs(g)) | ((np.abs(e) > 1e50) & (np.abs(g) > 1e50))
             st.check(clause + ' [singularity radius: fraction of grid points following the law >= 0.8]', 1.0 - float(np.mean(okpts)), 0.2, cid)
+            # where EVERY grid point follows the law (no near-branch event), the scalar - the minimum over the grid - is the same
+            if bool(np.all(okpts)) and 'r_singularity' in a1 and 'r_singularity' in a2 and np.all(np.abs(g) < 1e50):
+                e0 = mapping('r_singularity', a1['r_singularity'])
+                if e0 is not None:
+                    st.check(clause + ' [singularity radius: scalar, all grid points following the law]', abs(float(e0) - float(a2['r_singularity'])) / abs(float(a2['r_singularity'])), 1e-5, cid)
     for k, v in a1.items():
         if k in skip or k not in a2 or k in RSING_ATTRS:
             continue
@@ -790,16 +795,18 @@ def oracle_C05(objs, st=None, nshifts=2):
         # direction (quadrant 4 <-> 1 boundary of the helicity counter then falls on the periodic wrap)
         ks = set(int(x) for x in rng.integers(1, q.nphi, size=nshifts))
         n_ = q.nphi
-        for prof in (q.R0, -q.elongation, q.L_grad_B):
-            j = int(np.argmin(prof)); ks.add((j + 1) % n_); ks.add(j % n_)
+        targeted = []
+        profs = [q.R0, -q.elongation, q.L_grad_B] + [getattr(q, a_) for a_ in ('r_singularity_vs_varphi', 'L_grad_grad_B') if hasattr(q, a_)]
+        for prof in profs:
+            j = int(np.argmin(prof)); targeted += [(j + 1) % n_, j % n_]
         nR, nZ = q.normal_cylindrical[:, 0], q.normal_cylindrical[:, 2]
         quad = np.where(nR >= 0, np.where(nZ >= 0, 1, 4), np.where(nZ >= 0, 2, 3))
         for j in range(n_):
             if {int(quad[j]), int(quad[(j + 1) % n_])} == {1, 4}:
-                ks.add((j + 1) % n_)
-        ks.discard(0)
-        if len(ks) > nshifts + 4:
-            ks = set(sorted(ks)[:nshifts + 4])
+                targeted.append((j + 1) % n_)
+        # the targeted origins come first, the cap drops random ones before targeted ones
+        order_ = [k_ for k_ in dict.fromkeys(targeted) if k_ != 0] + [k_ for k_ in sorted(ks) if k_ != 0 and k_ not in targeted]
+        ks = set(order_[:nshifts + 8])
         for k in sorted(ks):
             kw = shifted_kwargs(c['kwargs'], q, k)
             try:
@@ -909,6 +916,7 @@ def oracle_C06(objs, st=None):
             import inputs as _inp
             if np.all(np.isfinite(qv.sigma)) and _inp.admissible(qv):
                 extra.append((dict(kind=c.get('kind'), name=c.get('name'), kwargs=kwv, derived=what), qv, None))
+    n_exported = 0
     for c, q, cap in objs + extra:
         kq = q.nfp
         if kq == 1 or kq % 2 == 0 or q.nphi * kq > 170:
@@ -967,6 +975,29 @@ def oracle_C06(objs, st=None):
             st.check('axis interpolants independent of the declared number of field periods', max(abs(float(qa.R0_func(ph_)) - float(qb.R0_func(ph_))) + abs(float(qa.Z0_func(ph_)) - float(qb.Z0_func(ph_))) for ph_ in (0.3, 1.9, 4.0)) / float(np.min(q.R0)), 1e-6, cid)
         except ValueError:
             pass
+        # ... nor does the exported boundary: mode (n, m) of the nfp = k file is mode (k n, m) of the nfp = 1 file; the two exports
+        # are made one after the other with default options (what is kept between calls must not carry a resolution over)
+        if n_exported < 3:
+            n_exported += 1
+            import tempfile
+            try:
+                with tempfile.TemporaryDirectory() as tmp:
+                    _copy.copy(q).to_vmec(_os.path.join(tmp, 'k'), r=rr, ntheta=6)
+                    _copy.copy(q1).to_vmec(_os.path.join(tmp, 'one'), r=rr, ntheta=6)
+                    (va, ma), (vb, mb) = parse_namelist(_os.path.join(tmp, 'k')), parse_namelist(_os.path.join(tmp, 'one'))
+                worst, wmode = 0.0, None
+                for (nm_, n_, m_), v_ in ma.items():
+                    d_ = abs(v_ - mb.get((nm_, n_ * kq, m_), 0.0))
+                    if d_ > worst:
+                        worst, wmode = d_, (nm_, n_, m_)
+                for (nm_, n_, m_), v_ in mb.items():
+                    if n_ % kq and abs(v_) > worst:
+                        worst, wmode = abs(v_), (nm_, n_, m_)
+                st.check('exported boundary coefficients independent of the declared number of field periods', worst / float(np.min(q.R0)), 1e-8, cid, detail=dict(mode=wmode, r=rr))
+                st.check('exported scalars (PHIEDGE, CURTOR) independent of the declared number of field periods',
+                         max(abs(float(va[k_]) - float(vb[k_])) / (abs(float(va[k_])) + 1e-300) for k_ in ('PHIEDGE', 'CURTOR') if k_ in va and k_ in vb and float(va[k_]) != 0.0) if any(float(va.get(k_, 0.0)) != 0.0 for k_ in ('PHIEDGE', 'CURTOR')) else 0.0, 1e-10, cid)
+            except ValueError:
+                pass
     return st
 
 
@@ -1056,8 +1087,57 @@ def oracle_sym(objs, st, kind, tol=1e-7):
             if kind == 'rev':
                 e = np.roll(e[::-1], 1)
             st.check('|grad grad B| magnitude law under ' + kind, reldiff(e, n2), tol, cid)
+        if q.order == 'r3' and 'iota2' in tab:
+            # the magnetic shear is computed on request only: its law is checked on the pair as well
+            e2 = tab['iota2']
+            fac = lam ** e2['L'] * cc ** e2['B'] if kind == 'scale' else sign_of(e2, kind)
+            if fac is not None:
+                try:
+                    qa_, qb_ = _copy.copy(q), _copy.copy(q2)
+                    qa_.calculate_shear(); qb_.calculate_shear()
+                    st.check('magnetic shear iota2 follows its law under ' + kind, abs(qb_.iota2 - fac * qa_.iota2) / (abs(fac * qa_.iota2) + 1e-300), 1e-7, dict(cid, lam=lam, c=cc),
+                             detail=dict(iota2=float(qa_.iota2), iota2_transformed=float(qb_.iota2), expected_factor=float(fac)))
+                except Exception:
+                    pass
         if len(st.samples) < 2:
             st.samples.append(dict(case=cid, attributes_without_table_entry=unknown[:12]))
+    return st
+
+
+def oracle_helicity_kernel(st, seed=0, count=24):
+    """the quadrant counter itself, on arbitrary normal sequences (coarse grids included: steps of two quadrants happen there):
+    negated by the mirror Z -> -Z and by toroidal reversal, unchanged by a cyclic shift, multiplied by k under k-fold repetition,
+    proportional to sG spsi"""
+    from qsc.calculate_r1 import _determine_helicity
+    rng = np.random.default_rng(4242 + seed)
+    class _O:
+        pass
+    def hel(nR, nZ, sG=1, spsi=1):
+        o = _O(); o.nphi = len(nR); o.sG = sG; o.spsi = spsi
+        o.normal_cylindrical = np.stack([np.asarray(nR, float), 0 * np.asarray(nR, float), np.asarray(nZ, float)], axis=1)
+        _determine_helicity(o)
+        return float(o.helicity)
+    for t in range(count):
+        n = int(rng.integers(3, 26))
+        turns = int(rng.integers(-2, 3))
+        # a normal that makes `turns` turns with a wobble; every third case is coarse (few points per turn: two-quadrant steps)
+        ang = float(rng.uniform(0, 6.28)) + 2 * np.pi * turns * np.arange(n) / n + float(rng.choice([0.2, 0.9, 1.6])) * np.sin(2 * np.pi * np.arange(n) / n + float(rng.uniform(0, 6.28)))
+        if t % 3 == 2:
+            ang = float(rng.uniform(0, 6.28)) + np.cumsum(rng.normal(size=n) * 1.3)
+        nR, nZ = np.cos(ang), np.sin(ang)
+        cid = dict(kind='kernel', kwargs=dict(kernel='_determine_helicity', nphi=n, normal_R=[float(x) for x in nR], normal_Z=[float(x) for x in nZ]))
+        st.distinct.add(('helicity-kernel', n, t % 3))
+        try:
+            h0 = hel(nR, nZ)
+            st.check('helicity counter: negated by the mirror Z -> -Z', abs(hel(nR, -nZ) + h0), 0.0, cid, detail=dict(helicity=h0, mirrored=hel(nR, -nZ)))
+            rv = lambda v: np.roll(v[::-1], 1)
+            st.check('helicity counter: negated by toroidal reversal', abs(hel(rv(nR), rv(nZ)) + h0), 0.0, cid, detail=dict(helicity=h0, reversed=hel(rv(nR), rv(nZ))))
+            s_ = int(rng.integers(1, n))
+            st.check('helicity counter: unchanged by a cyclic shift of the grid', abs(hel(np.roll(nR, s_), np.roll(nZ, s_)) - h0), 0.0, dict(cid, shift=s_))
+            st.check('helicity counter: multiplied by k under k-fold repetition', abs(hel(np.tile(nR, 3), np.tile(nZ, 3)) - 3 * h0), 0.0, cid)
+            st.check('helicity counter: proportional to sG spsi', abs(hel(nR, nZ, -1, 1) + h0) + abs(hel(nR, nZ, 1, -1) + h0) + abs(hel(nR, nZ, -1, -1) - h0), 0.0, cid)
+        except Exception as ex:
+            st.check('helicity counter returns', 1.0, 0.0, cid, detail=str(ex)[:100])
     return st
 
 
@@ -1104,6 +1184,16 @@ def oracle_C08(objs, st=None):
 def oracle_C19(objs, st=None):
     st = st or Stats()
     rng = np.random.default_rng(19)
+    objs = list(objs)
+    try:        # exactly stellarator-symmetric quasi-HELICALLY symmetric configurations (iota != iotaN there; the symmetric quadrature branch)
+        import inputs as _inp19
+        from qsc import Qsc as _Q19
+        for nm19, ex19 in (('2022 QH nfp3 vacuum', dict()), ('r2 section 5.4', dict(sG=-1, B0=1.2))):
+            kws = {k: (list(v) if isinstance(v, (list, np.ndarray)) else v) for k, v in _inp19.named_kwargs(nm19).items()}
+            kws.update(nphi=25, order='r3', **ex19)
+            objs.append((dict(kind='named', name=nm19, kwargs=kws), _Q19(**kws), None))
+    except Exception:
+        pass
     for c, q, cap in objs:
         if q.order != 'r3':
             continue
@@ -1215,6 +1305,8 @@ def oracle_C12(objs, st=None):
             if fin12.any():
                 st.check('reported radius equals the smallest positive root found by a direct scan over theta', float(np.max(np.abs(r12[fin12] - bf12[fin12]) / bf12[fin12])), 2e-4, cid12)
             st.check('scalar is the minimum over the grid', abs(q12.r_singularity - np.min(r12)), 0.0, cid12)
+    n_moved = 0
+    n_high = 0
     for c, q, cap in objs:
         if q.order == 'r1':
             continue
@@ -1224,6 +1316,18 @@ def oracle_C12(objs, st=None):
         st.check('scalar is the minimum over the grid', abs(q.r_singularity - np.min(r)), 0.0, cid)
         st.check('reciprocal profile', reldiff(q.inv_r_singularity_vs_varphi, 1 / r), 1e-14, cid)
         st.check('reported radii are positive', float(np.any(r <= 0)), 0.0, cid)
+        # ... wherever on the grid the minimum sits: the same configuration described from the origins that put the smallest
+        # radius on the last and on the first grid point (index arithmetic of the reduction)
+        if n_moved < 4 and np.min(r) < 1e50:
+            n_moved += 1
+            jm = int(np.argmin(r))
+            for k_ in sorted({(jm + 1) % q.nphi, jm % q.nphi} - {0}):
+                try:
+                    q_ = build(shifted_kwargs(c['kwargs'], q, k_))
+                    r_ = q_.r_singularity_vs_varphi
+                    st.check('scalar is the minimum over the grid', abs(q_.r_singularity - np.min(r_)), 0.0, dict(cid, origin_moved_by=k_, smallest_radius_at=int(np.argmin(r_))))
+                except Exception:
+                    pass
         Lc = cap.locals.get('calculate_r_singularity', {}) if cap is not None else {}
         wellcond = 'g0' in Lc and max(np.max(np.abs(Lc['g20'])), np.max(np.abs(Lc['g2s'])), np.max(np.abs(Lc['g2c']))) <= 1e4 * np.min(np.abs(Lc['g0'])) / max(np.min(q.R0), 1e-300) ** 2
         bf = rsing_bruteforce(q, cap) if wellcond else None      # the root filters use absolute tolerances: well-conditioned inputs only (property quantifier)
@@ -1236,6 +1340,25 @@ def oracle_C12(objs, st=None):
             st.check('sentinel exactly where the scan finds no positive root (near-tangent cases excepted)', float(mism), 0.1 * q.nphi + 1, cid)
             # a reported root satisfies ghat = 0 and d ghat/d theta = 0 for some theta: check residual of ghat at the minimising theta of the scan
         L = cap.locals.get('calculate_r_singularity', {}) if cap is not None else {}
+        if 'g0' in L and n_high < 3:
+            # the coefficients of the first three orders are the same whichever option the routine is called with (the
+            # `high_order` option adds further coefficients, it does not redefine these)
+            n_high += 1
+            try:
+                from qsccap import Capture as _Cap12
+                qh_ = _copy.copy(q)
+                with _Cap12() as cap_h:
+                    qh_.calculate_r_singularity(high_order=True)
+                Lh = cap_h.locals.get('calculate_r_singularity', {})
+                wh_, wn_ = 0.0, None
+                for nm_ in ('g0', 'g1c', 'g20', 'g2s', 'g2c'):
+                    if nm_ in Lh:
+                        d_ = reldiff(Lh[nm_], L[nm_], floor=float(np.max(np.abs(L['g0']))))
+                        if d_ > wh_:
+                            wh_, wn_ = d_, nm_
+                st.check('Jacobian coefficients of the first three orders do not depend on the high_order option', wh_, 1e-13, dict(cid, call='calculate_r_singularity(high_order=True)'), detail=dict(worst=wn_))
+            except Exception as ex:
+                st.check('Jacobian coefficients of the first three orders do not depend on the high_order option', 1.0, 0.0, dict(cid, call='calculate_r_singularity(high_order=True)'), detail=str(ex)[:120])
         if 'g0' in L:
             lp = abs(q.G0) / q.B0
             st.check('g0 = lp X1c Y1s (triple product at lowest order)', reldiff(L['g0'], lp * q.X1c * q.Y1s), 1e-13, cid)
@@ -1417,6 +1540,17 @@ def oracle_C14(objs, st=None):
             from qsc.fourier_interpolation import fourier_interpolation
             exact_R0 = sum(q.rc[j] * np.cos(j * q.nfp * p0) + q.rs[j] * np.sin(j * q.nfp * p0) for j in range(q.nfourier))
             st.check('spline interpolation error of the axis below 1e-5 of the major radius at nphi >= 31', abs(exact_R0 - qq.R0_func(p0)) / np.min(q.R0), 1e-5, cid)
+        # the coefficients computed with the object's OWN symmetry flag (what get_boundary and to_vmec do: the sine part of R and the
+        # cosine part of Z are dropped when lasym is False) reproduce the surface on the grid when the mode ranges cover it
+        from qsc.util import to_Fourier as _tF
+        mp_, nt_ = (ntheta - 1) // 2, q.nphi // 2
+        RBC, RBS, ZBC, ZBS = _tF(R2D, Z2D, q.nfp, mp_, nt_, q.lasym)
+        if not q.lasym:
+            RBS = np.zeros_like(RBC); ZBC = np.zeros_like(ZBS)
+        ph_ = np.linspace(0, 2 * np.pi / q.nfp, q.nphi, endpoint=False)[None, :]
+        Rr = inverse_series(RBC, RBS, q.nfp, th[:, None], ph_); Zr = inverse_series(ZBC, ZBS, q.nfp, th[:, None], ph_)
+        st.check("surface coefficients taken with the object's symmetry flag reproduce the surface on the grid (mode ranges cover the grid)",
+                 max(np.max(np.abs(Rr - R2D)), np.max(np.abs(Zr - Z2D))) / np.min(q.R0), 1e-10, cid, detail=dict(lasym=bool(q.lasym), r=float(r)))
         # boundary for plotting agrees with the Fourier coefficients' series (get_boundary path)
         try:
             xb, yb, zb, Rb = qq.get_boundary(r=r, ntheta=6, nphi=7, ntheta_fourier=8, mpol=4, ntor=q.nphi // 2)
@@ -1604,6 +1738,11 @@ def oracle_C18(objs, st=None):
                       ('r1 section 5.1', dict(rs=[0, 1e-4])),
                       # extremum of R0 slightly off a grid point, data almost symmetric about it
                       (None, dict(rc=[1, -0.03], zs=[0, 0.03], rs=[0, 1e-4], nfp=3, etabar=0.8, B0=1.2, order='r1')),
+                      # extremum of R0 in the LAST grid cell of the field period (just before phi = 0) on the middle rungs of the ladder
+                      (None, dict(rc=[1, -0.045 * float(np.cos(0.06))], zs=[0, 0.045], rs=[0, 0.045 * float(np.sin(0.06))], nfp=3, etabar=0.8, B0=1.1, order='r1')),
+                      # the same kind of axis in other length units (a small device: min R0 below the default penalty threshold; a large one)
+                      (None, dict(rc=[0.25, -0.01125 * float(np.cos(0.06))], zs=[0, 0.01125], rs=[0, 0.01125 * float(np.sin(0.06))], nfp=3, etabar=3.2, B0=1.2, order='r1')),
+                      (None, dict(rc=[6.0, -0.18], zs=[0, 0.18], rs=[0, 6e-4], nfp=3, etabar=0.8 / 6, B0=5.0, order='r1')),
                       # a weakly shaped axis: the profiles vary by less than 1e-4 relative (extrema still come from the interpolant)
                       (None, dict(rc=[1, 3e-5], zs=[0, 3e-5], rs=[0, 1e-5], nfp=2, etabar=0.9, order='r1')),
                       # stellarator-symmetric third-order configurations: the shear integral is spectral there
@@ -1642,6 +1781,23 @@ def oracle_C18(objs, st=None):
                 j0 = 0 if nm is None else 2
                 if k == 'min_R0':       # (pure axis geometry: resolved as soon as the axis harmonics are)
                   st.check('extrema located on the interpolant agree on all resolved rungs of the ladder to 1e-8 (%s)' % k, max(abs(x - v[-1]) for x in v[j0:]) / sc, 1e-8, cid, detail=dict(values=v, rungs=list(ladder[j0:])))
+    # the extremum is that of the trigonometric interpolant wherever it lies relative to the grid: exact single-harmonic data with
+    # the minimum in every cell next to the periodic wrap (and mid-array), at every position inside the cell
+    from qsc.util import fourier_minimum as _fm18
+    for n18 in (5, 8, 31, 64, 101):
+        dx18 = 2 * np.pi / n18
+        x18 = np.arange(n18) * dx18
+        for cell in (n18 - 1, 0, 1, n18 - 2, n18 // 2):
+            for frac in (-0.45, -0.2, 0.0, 0.3, 0.49):
+                d18_ = (cell + frac) * dx18
+                y18 = 2.0 - 0.7 * np.cos(x18 - d18_)
+                try:
+                    m18 = float(_fm18(y18)); err18 = abs(m18 - 1.3)
+                except Exception as ex:
+                    err18 = float('inf')
+                st.check('extremum of the trigonometric interpolant is located wherever it lies relative to the grid (exact one-harmonic data)', err18, 1e-11,
+                         dict(kind='kernel', kwargs=dict(kernel='fourier_minimum', n=n18, data='2 - 0.7 cos(x - d)', d=float(d18_), cell=int(cell), position_in_cell=frac)))
+        st.distinct.add(('fmin-sweep', n18))
     # convergence of scalar outputs with resolution (spectral for solved quantities)
     for c, q, cap in objs[:2]:
         cid = case_id(c)
@@ -1728,6 +1884,21 @@ def oracle_C20(st=None, seed=0, thorough=False):
             # (the shifts that put the smallest sample on the last / next-to-last / first / second array element included)
             st.check('spectral minimum invariant under cyclic shifts', abs(fm(np.roll(y, s)) - m), 1e-9 * (1 + abs(m)), dict(cid, shift=s, smallest_sample_at=int((j_ + s) % N)))
         st.check('constant data returns the constant', abs(fourier_minimum(np.full(N, 1.25)) - 1.25), 0.0, cid)
+    # arbitrary (rough, many-well) periodic data: the value returned never exceeds a sample - the search starts at the smallest one
+    for t in range(120 if thorough else 40):
+        N = int(rng.integers(4, 60))
+        y = rng.standard_normal(N)
+        if t % 3 == 0:
+            y[int(rng.integers(0, N))] -= 6.0          # one isolated deep sample between shallow wells
+        if t % 3 == 1:
+            y = y + 3.0 * np.cos(np.arange(N) * 2 * np.pi / N * int(rng.integers(2, 5)))      # several comparable wells
+        cid = dict(kind='kernel', kwargs=dict(kernel='fourier_minimum', N=N, data=[float(v_) for v_ in y]))
+        st.distinct.add(('F-rough', N))
+        try:
+            m = float(fourier_minimum(y))
+        except Exception as ex:
+            st.check('fourier_minimum returns', 1.0, 0.0, cid, detail=str(ex)[:100]); continue
+        st.check('spectral minimum does not exceed any sample', max(0.0, m - np.min(y)), 1e-12 * (1 + abs(np.min(y))), cid, detail=dict(returned=m, smallest_sample=float(np.min(y))))
     # purity: a second call with the same arguments is unaffected by what the caller did with the first result
     for n in (9, 12, 31):
         for (a, b) in ((0.0, 2 * np.pi), (0.3, 1.7)):
@@ -1762,27 +1933,34 @@ def oracle_newton(st, seed, count):
             f = lambda x: np.array([x[0] * x[0] + 1.0]); jac = lambda x: np.array([[2 * x[0] + 1e-3]]); x0 = np.array([float(rng.normal())])
         elif kind == 3 and t % 8 == 3:
             # huge initial residual, geometric decrease, then a stall on a plateau well above 1e4*tol
+            # (the residual is a vector of length nv with that Euclidean norm; every other plateau sits just above the warning
+            # threshold, where a norm other than the 2-norm - rms, max - would be below it)
+            nv = [1, 4, 25, 100][(t // 8) % 4]
             big = 10.0 ** float(rng.uniform(3, 12)); plateau = 10.0 ** float(rng.uniform(-8.5, -3))
+            if (t // 8) % 2 == 1:
+                plateau = 1e4 * tol * nv ** 0.25 * float(rng.uniform(1.0, 1.2))
+                big = plateau / 0.3 ** int(rng.integers(2, 12))          # (the plateau is reached within the 20 iterations)
             stream = [big]
             while stream[-1] * 0.3 > plateau:
                 stream.append(stream[-1] * 0.3)
             stream += [plateau] * 400
             cnt = [0]
-            def f(x, stream=stream, cnt=cnt):
+            def f(x, stream=stream, cnt=cnt, nv=nv):
                 v = stream[cnt[0]]; cnt[0] += 1
-                return np.array([v])
-            jac = lambda x: np.array([[1.0]]); x0 = np.array([1.0])
+                return np.full(nv, v / np.sqrt(nv))
+            jac = lambda x, nv=nv: np.eye(nv); x0 = np.ones(nv)
         else:
             L = int(rng.integers(1, 30)); stream = list(np.abs(rng.normal(size=L)) * 10.0 ** rng.integers(-12, 2, size=L))
             for k in range(L):
                 if rng.random() < 0.3:
                     stream[k] = float('nan')
-            stream += [float(rng.choice([1e-20, 1.0, float('nan')]))] * 400
+            nv = [1, 9, 64][(t // 4) % 3]
+            stream += [float(rng.choice([1e-20, 1.0, float('nan'), 1e4 * tol * nv ** 0.25]))] * 400
             cnt = [0]
-            def f(x, stream=stream, cnt=cnt):
+            def f(x, stream=stream, cnt=cnt, nv=nv):
                 v = stream[cnt[0]]; cnt[0] += 1
-                return np.array([v])
-            jac = lambda x: np.array([[1.0]]); x0 = np.array([1.0])
+                return np.full(nv, v / np.sqrt(nv))
+            jac = lambda x, nv=nv: np.eye(nv); x0 = np.ones(nv)
         cid = dict(kind='kernel', kwargs=dict(kernel='newton', system=kind, index=t))
         st.distinct.add(('N', kind, t))
         try:
@@ -1986,8 +2164,12 @@ def evaluator_outputs(q, with_shear=True, r=None, first=0, reverse=False):
     def bfield():
         out['Bfield_cylindrical'] = q.Bfield_cylindrical(r, 0.3)
         out['grad_B_tensor_cartesian'] = q.grad_B_tensor_cartesian()
+        out['Bfield_cylindrical(r=0)'] = q.Bfield_cylindrical()
+        out['Bfield_cartesian'] = q.Bfield_cartesian(r, 0.3)
+        out['get_dofs'] = np.array(q.get_dofs(), dtype=float)
         if q.order != 'r1':
             out['grad_grad_B_tensor_cartesian'] = q.grad_grad_B_tensor_cartesian()
+            out['grad_grad_B_tensor_cylindrical'] = q.grad_grad_B_tensor_cylindrical()
 
     def torz():
         R_, Z_, P_ = q.to_RZ([[r, 0.3, 0.2], [r, 2.0, 0.5]])
@@ -2007,6 +2189,8 @@ def evaluator_outputs(q, with_shear=True, r=None, first=0, reverse=False):
 
     def penalty():
         out['min_R0_penalty'] = q.min_R0_penalty()
+        xb_, yb_, zb_, Rb_ = q.get_boundary(r=r, ntheta=4, nphi=5, ntheta_fourier=6, mpol=3, ntor=q.nphi // 2)
+        out['get_boundary'] = np.array([xb_, yb_, zb_, Rb_], dtype=float)
 
     def shear():
         if with_shear and q.order == 'r3':
@@ -2057,6 +2241,30 @@ def oracle_history(objs, st=None, seed=0, label=''):
                  dict(kind='synth', kwargs=kwh, history=['every evaluator once', 'change_nfourier(2)']), detail=dict(worst_attribute=wnh))
     except Exception:
         pass
+    # the winding of the axis normal changes through (rs, zc) ALONE, rc and zs untouched - and back
+    try:
+        ords_ = [o_[1].order for o_ in objs] or ['r1']
+        kwq = dict(rc=[1, 0.02], zs=[0, 0.02], rs=[0, 0.0], zc=[0, 0.0], nfp=4, etabar=1.1, B0=1.2, sG=1, spsi=-1, B2c=0.05, order=max(ords_), nphi=31)
+        qw = _Qh(**kwq)
+        nfw = qw.nfourier
+        hw = []
+        for (a_, b_) in ((0.17, -0.17), (0.0, 0.0), (-0.17, -0.17)):
+            xw = qw.get_dofs().copy()
+            xw[2 * nfw + 1] = a_; xw[3 * nfw + 1] = b_
+            hw.append('set_dofs: rs[1] = %g, zc[1] = %g only' % (a_, b_))
+            qw.set_dofs(xw)
+            fw = build(params_of(qw))
+            aw, bw = numeric_attrs(qw), numeric_attrs(fw)
+            ww, wnw = (0.0, None) if qw.helicity == fw.helicity else (float('inf'), 'helicity')
+            for k_ in bw:
+                if k_ in aw and k_ != 'iota2':
+                    d_ = reldiff(aw[k_], bw[k_])
+                    if d_ > ww:
+                        ww, wnw = d_, k_
+            st.check('after a call history the stored outputs equal those of a fresh object built from the current parameters' + label, ww, 1e-12,
+                     dict(kind='synth', kwargs=kwq, history=list(hw)), detail=dict(worst_attribute=wnw, helicity=[float(qw.helicity), float(fw.helicity)]))
+    except Exception:
+        pass
     # every scalar parameter changed ALONE, one after the other on the same object (whatever is cached between calls must be
     # keyed on each of them), on the first object at hand
     for c, q0, cap in list(objs)[:1]:
@@ -2096,6 +2304,16 @@ def oracle_history(objs, st=None, seed=0, label=''):
             evaluator_outputs(q, r=r_fix, first=idx + seed + 1)        # ... so that call number (idx + seed) is the LAST one
         except Exception:
             pass
+        if rep == 0:
+            # evaluation / export calls are queries: the stored outputs they leave behind are those of the object before the calls
+            a0_, a1_ = numeric_attrs(q0), numeric_attrs(q)
+            wq_, wqn_ = 0.0, None
+            for k_ in a0_:
+                if k_ in a1_ and k_ != 'iota2':
+                    d_ = reldiff(a1_[k_], a0_[k_]) if np.shape(a1_[k_]) == np.shape(a0_[k_]) else float('inf')
+                    if d_ > wq_:
+                        wq_, wqn_ = d_, k_
+            st.check('evaluation / export calls leave the stored outputs unchanged' + label, wq_, 0.0, dict(case_id(c), history=['every evaluator once']), detail=dict(worst_attribute=wqn_))
         nf = q.nfourier
         x = q.get_dofs().copy()
         kind = (idx + seed) % 8          # the kinds of history are cycled over the objects
@@ -2146,6 +2364,13 @@ def oracle_history(objs, st=None, seed=0, label=''):
                 q.set_dofs(x)
         except Exception as ex:
             continue
+        if via_attributes is None:
+            # the vector read back is the vector that was set, and each block landed on the attribute that get_dofs / names say
+            # it is (rc, zs, rs, zc, etabar, sigma0, B2s, B2c, p2, I2, B0): the object now IS the one described by x
+            back_ = np.asarray(q.get_dofs(), float)
+            meant_ = np.concatenate([np.asarray(getattr(q, a_), float).ravel() for a_ in ('rc', 'zs', 'rs', 'zc')] + [np.array([float(getattr(q, a_)) for a_ in ('etabar', 'sigma0', 'B2s', 'B2c', 'p2', 'I2', 'B0')])])
+            st.check('set_dofs(x) followed by get_dofs() returns x, block by block on the documented attributes' + label,
+                     max(float(np.max(np.abs(back_ - x))) if back_.shape == x.shape else float('inf'), float(np.max(np.abs(meant_ - x))) if meant_.shape == x.shape else float('inf')), 0.0, cid)
         if not np.all(np.isfinite(q.sigma)):
             continue
         try:
